@@ -39,6 +39,9 @@ func (c06) InitWorker()                { logrus.SetOutput(io.Discard) }
 
 var c06Kinds = []string{"readerr", "trunc", "badimport", "badbody"}
 
+// files cut inside the header of their last application (the syntax error is located at end of file)
+var c06EOFKinds = []string{"trunchdr", "truncname", "trunccolon"}
+
 func (c06) Bounds(tier string) map[string]interface{} {
 	if tier == "thorough" {
 		return map[string]interface{}{"graphs": "all N<=3 (lists<=2) + named N=4", "fault_set_size": "<=2 (N<=3), <=3 named", "kinds": c06Kinds, "foreign": true}
@@ -101,7 +104,11 @@ func (c06) Cases(tier string, emit func(string, interface{})) {
 					emit("fault", gc)
 					return
 				}
-				for _, k := range c06Kinds {
+				kinds := c06Kinds
+				if len(sub) == 1 {
+					kinds = append(append([]string{}, c06Kinds...), c06EOFKinds...) // end-of-file truncations: single faults only
+				}
+				for _, k := range kinds {
 					f[fileLetters[sub[i]]+".sysl"] = k
 					rec(i+1, f)
 				}
